@@ -117,7 +117,9 @@ class QTensorLinear(torch.autograd.Function):
                 # The scale of per-axis activations cannot be factored out of the matrix multiplication
                 input = input.dequantize()
             if isinstance(input, QBytesTensor):
-                output = torch.ops.quanto.qbytes_mm(input._data, other._data, input._scale * other._scale)
+                # The product of the scales is evaluated in float32: it might underflow in reduced precision
+                output_scale = input._scale.to(torch.float32) * other._scale.to(torch.float32)
+                output = torch.ops.quanto.qbytes_mm(input._data, other._data, output_scale).to(input._scale.dtype)
             else:
                 output = torch.ops.quanto.qbytes_mm(input, other._data, other._scale)
         else:
